@@ -58,8 +58,10 @@ fn model_selftest(tier: &str) -> Result<String, String> {
     refchess::self_test(cap)
 }
 
-fn real_main(args: Vec<String>) -> i32 {
+fn real_main(mut args: Vec<String>) -> i32 {
     bind::install_panic_hook();
+    let worker = args.iter().any(|a| a == "--worker");
+    args.retain(|a| a != "--worker");
     match refchess::Keys::load("/repo/zobrist_bytes.bin") {
         Ok(k) => {
             let _ = props::core::KEYS.set(k);
@@ -99,7 +101,7 @@ fn real_main(args: Vec<String>) -> i32 {
         }
         "replay" => {
             let Some(path) = args.get(1) else { usage() };
-            replay(path)
+            replay(path, worker)
         }
         prop => {
             let tier = args.get(1).map(|s| s.as_str()).unwrap_or("quick").to_string();
@@ -108,6 +110,18 @@ fn real_main(args: Vec<String>) -> i32 {
             }
             let seed: i64 = args.get(2).and_then(|s| s.parse().ok()).or_else(|| std::env::var("VERIF_SEED").ok().and_then(|s| s.parse().ok())).unwrap_or(0);
             let t0 = Instant::now();
+            if worker {
+                // worker processes report their accumulator on stdout and never print verdict lines
+                let acc = match prop {
+                    "C17" => props::c17::run_local(&tier, seed).0,
+                    _ => {
+                        out!("MACHINERY-ERROR: no worker mode for {}", prop);
+                        return 2;
+                    }
+                };
+                out!("ACC {}", acc.to_json().compact());
+                return 0;
+            }
             let note = match model_selftest(&tier) {
                 Ok(m) => m,
                 Err(e) => {
@@ -121,6 +135,7 @@ fn real_main(args: Vec<String>) -> i32 {
                 "C05" => props::c05::run(&tier, seed),
                 "C12" => props::c12::run(&tier, seed),
                 "C20" => props::c20::run(&tier, seed),
+                "C17" => props::c17::run(&tier, seed),
                 _ => {
                     out!("MACHINERY-ERROR: unknown property {}", prop);
                     return 2;
@@ -131,7 +146,7 @@ fn real_main(args: Vec<String>) -> i32 {
     }
 }
 
-fn replay(path: &str) -> i32 {
+fn replay(path: &str, worker: bool) -> i32 {
     let text = match std::fs::read_to_string(path) {
         Ok(t) => t,
         Err(e) => {
@@ -158,10 +173,18 @@ fn replay(path: &str) -> i32 {
             "state" => props::core::replay_state(&prop, r),
             "c05-variant" | "c05-collision" => props::c05::replay(r),
             "c12-string" => props::c12::replay(r),
+            "c17-string" => props::c17::replay(r),
             _ => Err(format!("unknown replay kind {:?}", kind)),
         }
     };
     let (a, b) = (run(), run());
+    if worker {
+        match a {
+            Ok(a) => out!("ACC {}", a.to_json().compact()),
+            Err(e) => out!("MACHINERY-ERROR: {}", e),
+        }
+        return 0;
+    }
     match (a, b) {
         (Ok(a), Ok(b)) => {
             let ka: Vec<_> = a.violations.iter().map(|v| (&v.key, &v.what)).collect();
